@@ -124,10 +124,16 @@ fn gen_m2(ch: &mut Ch, thorough: bool) -> Option<Case> {
         return None;
     }
     // attribute entry also with every trait in its own stacked `#[derive_ex(..)]` attribute
-    let stacked = derived.len() >= 2 && entry == Entry::Attr && ch.pick(2) == 1;
+    // .. or generated by a macro_rules! macro with the helper attributes passed in as meta fragments
+    let how = ch.pick(3);
+    if how == 1 && !(derived.len() >= 2 && entry == Entry::Attr) || how == 2 && combo.is_plain() {
+        return None;
+    }
     let mut ts = container_spec(container, ctx, FieldSpec::cfg(combo, form_for(ctx)), KeyStyle::Distinct);
-    if stacked {
+    if how == 1 {
         ts.shared_arg = Some(STACKED);
+    } else if how == 2 {
+        ts.shared_arg = Some(VIA_MACRO);
     }
     Some(Case { gen: "m2", vector: ch.vector(), ts, derived, entry })
 }
@@ -310,9 +316,13 @@ pub fn evaluate_cases(ctx: &Ctx, rep: &mut Report, cases: &[Case], hash_only: bo
             continue;
         }
         if !r.compiled() {
+            // the expander accepted the placement without an error of its own, so the documented behaviour must be
+            // observable: a program rustc rejects is a violation here as in the other behavioural checks
             rep.case(&text, false);
-            rep.add("unobservable_rustc_rejects_accepted_expansion(C20)", 1);
-            rep.outcome(&format!("unobservable:{}", r.codes()));
+            rep.outcome(&format!("does-not-compile:{}", r.codes()));
+            let mut atoms = atoms_of(c);
+            atoms.insert(format!("group={}", r.codes()));
+            rep.violation(Violation { symptom: format!("does-not-compile:{}", r.codes()), atoms, what: format!("{} derive_ex({}) via {}: rustc rejects the program: {}", c.ts.describe(), names(&c.derived).join(", "), c.entry.name(), r.errors().iter().map(|e| format!("{} {}", e.code, runner::first_line(&e.message))).collect::<Vec<_>>().join(" | ")), detail: detail(json!(r.codes())), standalone: Some(standalone(&rcases[k].code, "")) });
             continue;
         }
         rep.validated += 1;
